@@ -129,6 +129,18 @@ var rtTimerSeed uint32
 //go:linkname rtTimerSeq runtime.verifTimerSeq
 var rtTimerSeq uint32
 
+//go:linkname rtDrainHook runtime.verifDrainHook
+var rtDrainHook func(timeout int64) bool
+
+// DrainFinalizers waits (outside any bubble, between two runs) until the runtime has run every finalizer and cleanup
+// the last collection queued (build rule R13).
+func DrainFinalizers() bool {
+	if rtDrainHook == nil {
+		return false
+	}
+	return rtDrainHook(200 * 1000 * 1000)
+}
+
 //go:linkname rtSelectState runtime.verifSelectState
 var rtSelectState uint64
 
